@@ -144,7 +144,7 @@ func runC17(c *core.Ctx) {
 			if err != nil {
 				norm = "err"
 				// the error names one of the files
-				if ge, ok := err.(*gqlerror.Error); ok {
+				if ge, ok := err.(*gqlerror.Error); ok && ge != nil {
 					file, _ := ge.Extensions["file"].(string)
 					okFile := file == "prelude.graphql"
 					for j := range srcs {
